@@ -25,7 +25,7 @@ KEYS = [("x", "x"), ("y", "y"), ("shank", "shank"), ("row", "row"), ("col", "col
 
 
 def gen_cases(seed, tier):
-    n = 150 if tier == "quick" else 3000
+    n = 150 if tier == "quick" else 12000
     cases = [{"cls": "meta", "seed": seed * 1000 + i, "n": 6, "_w": 1} for i in range(n)]
     cases += [{"cls": "grid", "seed": seed, "_w": 1}, {"cls": "dense", "seed": seed, "_w": 1}]
     return cases
